@@ -249,6 +249,8 @@ func (r *Run) Finish() int {
 		v.Replay = p
 		if len(lines) < 10 {
 			lines = append(lines, fmt.Sprintf("VIOLATION property=%s replay=%s", r.ID, p))
+		}
+		if len(lines) <= 3 {
 			fmt.Printf("  scenario=%s sig=%s\n  case=%s\n  want=%s\n  got=%s\n", v.Scenario, v.Sig, trunc(string(v.Case), 600), trunc(v.Want, 300), trunc(v.Got, 300))
 		}
 	}
